@@ -476,6 +476,9 @@ func fmtF(f F) string {
 func seqText(fs []F, ct int) string {
 	d := Dim(ct)
 	var sb strings.Builder
+	if len(fs) == 0 {
+		return "EMPTY" // an empty ring inside a non-empty polygon
+	}
 	sb.WriteByte('(')
 	for i := 0; i+d <= len(fs); i += d {
 		if i > 0 {
